@@ -344,7 +344,7 @@ class JnpHistogramPlugin(PrimitiveLeafPlugin):
         bins_dtype: np.dtype[Any] = np.dtype(
             getattr(bins_var.aval, "dtype", edge_dtype)
         )
-        compare_dtype: np.dtype[Any] = np.promote_types(a_dtype, edge_dtype)
+        compare_dtype: np.dtype[Any] = np.dtype(jnp.promote_types(a_dtype, edge_dtype))
 
         a_val = ctx.get_value_for_var(a_var, name_hint=ctx.fresh_name("histogram_a"))
         bins_val = ctx.get_value_for_var(
